@@ -15,7 +15,7 @@ NS_WORDS = ['n', 'xn', 'nx', 'm', 'xm', 'train', 'tr', 'xtr', 'valid', 'a', 'xa'
 # (the last ones are also names of attributes / methods of Config and dict: parameters may be called like that)
 PARAM_NAMES = ['p', 'q', 'size', 'dim', 'dim2', 'lr', 'lr2', 'alpha', 'opt', 'flag', 'names', 'cfgmap', 'name', 'namespace', 'context', 'keys', 'items', 'base_dir']
 DATA_KINDS = ['json_dict', 'json_dict', 'json_list', 'str', 'int', 'numpy', 'pandas', 'generator', 'lazy', 'listnp', 'dir', 'continues', 'memory',
-              'json_dict', 'numpy', 'dir', 'generator', 'empty_gen', 'empty_listnp', 'empty_dir']
+              'json_dict', 'numpy', 'dir', 'generator', 'empty_gen', 'empty_listnp', 'empty_dir', 'json_len']
 STR_ALPHABET = ['a', 'b', 'x', "'", '"', ', ', ': ', '###', '$$$', '=', '[', ']', 'é', ' ', '\\', '\n', '0']
 
 DEFAULT_FEAT = {
